@@ -1087,8 +1087,21 @@ def canon_fn(crate, path):
         i = path.find(needle)
         if i >= 0 and i + len(needle) < len(path) and path[i + len(needle)].isupper():
             mod = re.match(r"(?:[<&\s]|mut\s)*((?:[a-z_0-9]+::)*)", fp).group(1).rstrip(":")
-            return path[:i].rstrip("<") + ("<" if path[:i].endswith("<") else "") + "{fn@%s}::" % mod + path[i + len(needle):]
+            # an item declared inside a function body is named like an item of the enclosing module: moving it out of (or into)
+            # the function does not orphan its reviewed entry
+            pre_ = path[:i]
+            if pre_.endswith("<"):
+                pre_ = pre_[:-1].rstrip("<") + "<" if pre_.count("<") > 1 else pre_
+            return _drop_inner_qualifier(path[:i], (mod + "::") if mod else "", path[i + len(needle):])
     return path
+
+
+def _drop_inner_qualifier(prefix, mod, rest):
+    """`<<A as T>::f::Item as Tr>::m` -> `<mod::Item as Tr>::m`: prefix ends with the `<` that opened the enclosing function's
+    own qualified path (if it had one); that bracket pair is removed with the function name"""
+    if prefix.endswith("<<"):
+        prefix = prefix[:-1]
+    return prefix + mod + rest
 
 
 _STRIP_CLO = re.compile(r"(::\{closure#\d+\})+$")
